@@ -231,6 +231,31 @@ def run_cases(res: Result, rng: random.Random, n_msgs: int, hdr_grid: bool, fail
             fails.append({"what": "run-time registered command not dispatched / unknown code not generic", "line": "register()"})
     except Exception as ex:  # noqa
         fails.append({"what": f"commands.register raised {type(ex).__name__}: {ex}", "line": "register()"})
+    # the flag properties of the header: each reads and writes exactly its bit (R 0x80, P 0x40, E 0x20, T 0x10), for every octet
+    try:
+        from diameter.message import MessageHeader
+        bits = {"is_request": 0x80, "is_proxyable": 0x40, "is_error": 0x20, "is_retransmit": 0x10}
+        bad = []
+        for octet in range(256):
+            for name, bit in bits.items():
+                h = MessageHeader(command_flags=octet)
+                if bool(getattr(h, name)) != bool(octet & bit):
+                    bad.append(f"{name} of flags {octet:#04x} reads {getattr(h, name)}")
+                for val in (True, False):
+                    h = MessageHeader(command_flags=octet)
+                    setattr(h, name, val)
+                    want = (octet | bit) if val else (octet & ~bit)
+                    if h.command_flags != want:
+                        bad.append(f"{name}={val} on flags {octet:#04x} gives {h.command_flags:#04x}, expected {want:#04x}")
+                    else:
+                        packed = h.as_bytes() if hasattr(h, "as_bytes") else None
+                res.cases += 1
+        res.count("header-flag-properties", 256 * 4)
+        if bad:
+            fails.append({"what": "a header flag property does not read / write exactly its own bit: " + "; ".join(bad[:4]),
+                          "line": "MessageHeader flag properties", "count": len(bad)})
+    except Exception as ex:  # noqa
+        fails.append({"what": f"header flag properties raised {type(ex).__name__}: {ex}", "line": "MessageHeader flag properties"})
     for s in d.lines[-3:]:
         res.sample({"line": s[:300]})
     return d
